@@ -251,6 +251,34 @@ func c11Equal(a, b []c11Res) bool {
 	return true
 }
 
+// c11Progress counts completed operations of every concurrent phase; c11Watchdog turns "no operation completed for the stall
+// limit" into a report (stalls) and an exit instead of a process that hangs until the caller's timeout.
+var c11Progress atomic.Int64
+
+func c11Watchdog(rep *c11Report, outDir string, limit time.Duration) (stop func()) {
+	done := make(chan struct{})
+	go func() {
+		last, lastChange := int64(-1), time.Now()
+		for {
+			select {
+			case <-done:
+				return
+			case <-time.After(200 * time.Millisecond):
+			}
+			if p := c11Progress.Load(); p != last {
+				last, lastChange = p, time.Now()
+			} else if time.Since(lastChange) > limit {
+				rep.Stalls = append(rep.Stalls, fmt.Sprintf("no operation of the concurrent phases completed for %v (%d had completed): goroutines are blocked on each other", limit, last))
+				b, _ := json.MarshalIndent(rep, "", " ")
+				os.WriteFile(filepath.Join(outDir, "report.json"), b, 0o644)
+				fmt.Println("c11stress: STALL " + rep.Stalls[0])
+				os.Exit(4)
+			}
+		}
+	}()
+	return func() { close(done) }
+}
+
 func c11stress(args []string) int {
 	fs := flag.NewFlagSet("c11stress", flag.ExitOnError)
 	seed := fs.Uint64("seed", 1, "seed")
@@ -367,6 +395,8 @@ func c11stress(args []string) int {
 			mu.Unlock()
 		}
 	}
+	stopWatchdog := c11Watchdog(rep, *outDir, 20*time.Second)
+	defer stopWatchdog()
 	deadline := time.Now().Add(time.Duration(*durMS) * time.Millisecond)
 	var wg sync.WaitGroup
 	for g := 0; g < G; g++ {
@@ -376,6 +406,7 @@ func c11stress(args []string) int {
 			defer notePanic("search goroutine")
 			gr := NewRng(*seed, uint64(1000+g), "c11stress-g")
 			for it := 0; ; it++ {
+				c11Progress.Add(1)
 				if it%8 == 0 && time.Now().After(deadline) {
 					return
 				}
@@ -481,6 +512,7 @@ func c11stress(args []string) int {
 						got = c11Conv(fresh, fresh.SearchUniversal(c.Query, c.Opts))
 					}
 					nCold.Add(1)
+					c11Progress.Add(1)
 					if !c11Equal(got, c.exp) {
 						record("first concurrent searches on a freshly loaded database", c, got)
 					}
@@ -529,6 +561,7 @@ func c11stress(args []string) int {
 				defer notePanic("shared-options goroutine")
 				gr := NewRng(*seed, uint64(5000+g), "c11stress-shared")
 				for it := 0; it < 150; it++ {
+					c11Progress.Add(1)
 					x := qs[gr.Intn(len(qs))]
 					got := c11Conv(db, db.SearchUniversal(x.q, shared))
 					nShared.Add(1)
@@ -591,6 +624,7 @@ func c11stress(args []string) int {
 							fresh.InvalidateCache()
 						}
 						progress.Add(1)
+						c11Progress.Add(1)
 					}
 				}(g)
 			}
@@ -682,6 +716,7 @@ func c11stress(args []string) int {
 						<-start
 						got := c11Conv(db, burst.SearchWithOptionsAndCache(g.q, v.o))
 						nBurst.Add(1)
+						c11Progress.Add(1)
 						if !c11Equal(got, v.exp) {
 							record("simultaneous cache misses differing only in platform list / boost table", &c11Case{Query: g.q, Opts: v.o, exp: v.exp}, got)
 						}
@@ -757,6 +792,7 @@ func c11stress(args []string) int {
 				gr := NewRng(*seed, uint64(5000+100*ci+g), "c11stress-lru")
 				nk := cfg.capv + 2
 				for it := 0; ; it++ {
+					c11Progress.Add(1)
 					if it%64 == 0 && time.Now().After(dl) {
 						return
 					}
@@ -884,6 +920,7 @@ func c11stress(args []string) int {
 			wg.Add(1)
 			go func(t int) {
 				defer wg.Done()
+				defer c11Progress.Add(1)
 				defer notePanic("history goroutine")
 				// spin barrier: all goroutines of the history start together
 				ready.Add(1)
